@@ -30,6 +30,8 @@
 #include "iterators/IteratorDictStringXBW.h"
 #include "iterators/IteratorDictStringXBWDuplicates.h"
 
+#include <sstream>
+
 StringDictionaryXBW::StringDictionaryXBW() {
   this->type = DXBW;
   this->elements = 0;
@@ -128,6 +130,18 @@ StringDictionaryXBW::StringDictionaryXBW(IteratorDictString *it) {
   for (uint i = 0; i < len; i++)
     delete nodes[i];
   delete[] occ;
+
+  // The XBW answering the queries is built from its own serialization (as
+  // load does), so the dictionary can be used without saving and loading it
+  {
+    std::stringstream ss(std::ios::in | std::ios::out | std::ios::binary);
+    ss.write((char *)&len, sizeof(uint));
+    ss.write((char *)mapping, 257 * sizeof(uint));
+    ss.write((char *)alpha, len * sizeof(uint));
+    ss.write((char *)last, (len / W + 1) * sizeof(uint));
+    ss.write((char *)A, (len / W + 2) * sizeof(uint));
+    xbw = new XBW(ss);
+  }
 }
 
 unsigned long StringDictionaryXBW::locate(uchar *str, uint strLen) {
